@@ -108,6 +108,23 @@ add("C16", "controlled scheduler (sys.monitoring INSTRUCTION events + scheduler-
     "Registration checks inside add/query are linearised per registry, not jointly with the store (an add accepted while its provider deregisters is not a violation); background loops of the threaded variants are explicit operations; the TinyDB back-end is out of the property's scope; preemption bound 3/2 plus random schedules, not all schedules.",
     "DESIGN.md 3/C16")
 
+# Workload classes added after independent agents had seeded changes the first versions missed (DESIGN.md 3a)
+ADDED = {
+    "C01": " Also: stations that get new position fixes between requests (through the router's own TPV refresh with whole-second timestamps, or millisecond timestamps), so that several fixes share one timestamp and the packet's SO PV differs from what a receiver's location table holds.",
+    "C02": " The LS request that provokes an LS reply carries the requester's own traffic class, hop budget, lifetime and mobility flag, none of which may show up in the reply.",
+    "C03": " Authentic frames of a hostile ticket holder (signed header carrying a rogue root / AA / ticket in requestedCertificate, or certificate requests) are placed before and between the forged frames; frames under the attacker's chain must stay undeliverable afterwards.",
+    "C06": " Also: SCF bit set and forwarders without any neighbour; the station leaving the destination area while its copy waits in the CBF buffer; a packet buffered, cancelled by its duplicate, pushed out of a short duplicate list and buffered again inside one contention window (only the second instance's copy may be sent).",
+    "C07": " History classes: families of areas sharing the centre evaluated by one long-lived router at one receiver position with one parameter changing at a time (azimuth, semi-axes, shape) and back; sequences of packets to one long-lived receiver that may move in between; Annex D with a location-table position of the sender that is newer than (and on the other side of the border from) the one in a delayed packet.",
+    "C09": " Part S also runs with a real SignService behind the VerifyService and with messages of genuine signers whose signed header carries certificates (rogue root / AA / ticket) or certificate requests, and in a second PKI flavour (root with explicit issuing groups, AA holding an application permission it may not issue, AA certificate put together by the harness). Part I includes issuers whose PSID groups have different remaining chain lengths.",
+    "C10": " CAM runs include injected lower-layer faults (the BTP router raises at chosen call ordinals): a refused CAM counts neither as a CAM nor as the last one that carried the low-frequency container; the speed/heading content of every CAM is compared with ITS OWN report (missing key -> unavailable).",
+    "C11": " Also: CAM trajectories with position jumps of 0.0131..1 degree in one or both axes and a path-history oracle (each path point is the true offset of an earlier CAM position or 'unavailable'; a jump must not stall the service); report streams through one long-lived CA / VRU service instance in which the set of keys changes from report to report (device data configured with plain dicts or defaults).",
+    "C13": " Between requests the store keeps changing (updates, deletes - the same operation on both back-ends and the model) and requests are repeated; order attributes include ones whose path depends on the message type (stationType, generationDeltaTime).",
+    "C14": " Consumer callbacks may use IF.LDM.4 again from inside the attendance pass (unsubscribe themselves, a sibling or the next subscription of the pass; deregister themselves or another consumer): one event counter orders callbacks and ends of subscriptions, and a notification after an acknowledged end is a violation also inside the same pass. Order attributes include type-dependent paths over multi-type subscriptions.",
+    "C15": " Every tier has a CBF scenario with a duplicate list of length 1 in which a packet is buffered, cancelled by its duplicate, pushed out of the list and buffered again while the first contention timer may be armed or already fired: the cancelled instance must never be transmitted and the new one must be.",
+    "C16": " process_notifications is hooked: a notification decided (lock taken, subscription looked up) after a removal had completed is a violation even when the pass had begun before.",
+    "C17": " Also: one emergency-vehicle service object re-triggered at a new position while its event is still repeating (the destination circle must follow the event position of the DENM being sent); streams of DENMs from several originating stations sharing sequence numbers, with repetitions and out-of-order reference times, into one receiver (every received event must be, and stay, in the LDM at its position).",
+}
+
 NOT_YET = "check not built yet (work in progress; runtime monitor planned in DESIGN.md section 3)"
 
 def main():
@@ -138,7 +155,7 @@ def main():
                 "evidence_file": f"/verif/evidence/{pid}.json",
                 "replay_cmd_template": f"./check {pid} --replay {{path}}",
                 "engine": "vf",
-                "level_claimed": {"category": "exploration", "text": c["text"], "design_ref": c["design"]},
+                "level_claimed": {"category": "exploration", "text": c["text"] + ADDED.get(pid, ""), "design_ref": c["design"] + (" and 3a" if pid in ADDED else "")},
                 "level_note": c["note"],
                 "technique": c["technique"],
             })
